@@ -6,8 +6,16 @@ Open Scope string_scope.
 
 Definition CHECK_ROUND_PRECISION : Z := 2%Z.
 Definition ROUND_PRECISION : Z := 6%Z.
+(* utils.round_cmp: 0 = round(a, p) - round(b, p); 1 = round(a - b, p) *)
+Definition ANCHOR_ROUND_CMP_MODE : Z := 0%Z.
 (* priceable(): INF = max(budget, costs) * BIGM_FACTOR *)
 Definition ANCHOR_BIGM_FACTOR : Z := 10%Z.
+(* priceability_relaxation.py: Relaxation.INF = budget * RELAX_INF_FACTOR; MinAddOffset.BUDGET_FRACTION;
+   MinAddVector forces beta[c] = 0 on selected projects with rows whose big-M is RELAX_VEC_CAP_FACTOR budgets *)
+Definition ANCHOR_RELAX_INF_FACTOR : Z := 10%Z.
+Definition ANCHOR_RELAX_FRACTION_NUM : Z := 1%Z.
+Definition ANCHOR_RELAX_FRACTION_DEN : positive := 40%positive.
+Definition ANCHOR_RELAX_VEC_CAP_FACTOR : Z := 10%Z.
 (* exhaustion_by_budget_increase defaults: step = B * (num/den); bound = B * (num_ballots + k) *)
 Definition INCREASE_STEP_NUM : Z := 1%Z.
 Definition INCREASE_STEP_DEN : positive := 100%positive.
